@@ -50,6 +50,14 @@ var instrTargets = []string{
 	"github.com/wundergraph/graphql-go-tools/execution/engine",
 	"github.com/wundergraph/graphql-go-tools/execution/subscription",
 	"github.com/wundergraph/graphql-go-tools/execution/subscription/websocket",
+	"github.com/wundergraph/graphql-go-tools/v2/pkg/engine/datasource/graphql_datasource/subscriptionclient",
+	"github.com/wundergraph/graphql-go-tools/v2/pkg/engine/datasource/graphql_datasource/subscriptionclient/transport",
+	"github.com/wundergraph/graphql-go-tools/v2/pkg/engine/datasource/graphql_datasource/subscriptionclient/protocol",
+	"github.com/wundergraph/graphql-go-tools/v2/pkg/engine/datasource/graphql_datasource/subscriptionclient/common",
+	// third-party: its selects and goroutines take part in the UPS world (see relocateModuleCacheFiles)
+	"github.com/coder/websocket",
+	"github.com/coder/websocket/wsjson",
+	"github.com/coder/websocket/internal/xsync",
 }
 
 func fatal2(format string, a ...any) {
@@ -180,12 +188,86 @@ func prepare() *build {
 	if d, ok := b.report["source_digest"].(string); ok {
 		b.digest = d
 	}
+	modfile := relocateModuleCacheFiles(b, idir)
 	b.bin = filepath.Join(scratch, "worlds.test")
-	cmd = exec.Command(gobin, "test", "-c", "-vet=off", "-overlay", filepath.Join(idir, "overlay.json"), "-o", b.bin, "./worlds")
+	cmd = exec.Command(gobin, "test", "-c", "-vet=off", "-modfile="+modfile, "-overlay", filepath.Join(idir, "overlay.json"), "-o", b.bin, "./worlds")
 	cmd.Dir = filepath.Join(verifDir, "sim")
 	cmd.Env = baseEnv()
 	runOrDie(cmd, "build of the simulator test binary")
 	return b
+}
+
+// relocateModuleCacheFiles: `go build -overlay` refuses to replace files beneath GOMODCACHE. The
+// instrumented files of third-party modules (github.com/coder/websocket) are therefore written
+// into a scratch copy of the module, and the build uses a scratch go.mod (-modfile) that
+// replaces the module by that copy. /verif/sim/go.mod itself is not touched.
+func relocateModuleCacheFiles(b *build, idir string) string {
+	ovPath := filepath.Join(idir, "overlay.json")
+	raw, err := os.ReadFile(ovPath)
+	if err != nil {
+		fatal2("%v", err)
+	}
+	var ov struct{ Replace map[string]string }
+	if err := json.Unmarshal(raw, &ov); err != nil {
+		fatal2("overlay.json: %v", err)
+	}
+	out, err := exec.Command(b.gobin, "env", "GOMODCACHE").Output()
+	if err != nil {
+		fatal2("go env GOMODCACHE: %v", err)
+	}
+	modcache := strings.TrimSpace(string(out))
+	copies := map[string]string{} // module dir in the cache -> scratch copy
+	var replaces []string
+	for orig, instr := range ov.Replace {
+		if modcache == "" || !strings.HasPrefix(orig, modcache+"/") {
+			continue
+		}
+		rel := strings.TrimPrefix(orig, modcache+"/")
+		// module dir = path up to and including the element that carries @version
+		parts := strings.Split(rel, "/")
+		k := -1
+		for i, p := range parts {
+			if strings.Contains(p, "@") {
+				k = i
+				break
+			}
+		}
+		if k < 0 {
+			fatal2("cannot find module root of %s", orig)
+		}
+		modDir := filepath.Join(modcache, filepath.Join(parts[:k+1]...))
+		cp, ok := copies[modDir]
+		if !ok {
+			cp = filepath.Join(b.scratch, "mods", strings.ReplaceAll(strings.Join(parts[:k+1], "_"), "@", "_"))
+			os.MkdirAll(filepath.Dir(cp), 0o755)
+			runOrDie(exec.Command("cp", "-r", modDir, cp), "copy of "+modDir)
+			runOrDie(exec.Command("chmod", "-R", "u+w", cp), "chmod")
+			copies[modDir] = cp
+			modPath := strings.Join(parts[:k+1], "/")
+			modPath = modPath[:strings.Index(modPath, "@")]
+			replaces = append(replaces, fmt.Sprintf("replace %s => %s", modPath, cp))
+		}
+		data, err := os.ReadFile(instr)
+		if err != nil {
+			fatal2("%v", err)
+		}
+		if err := os.WriteFile(filepath.Join(cp, filepath.Join(parts[k+1:]...)), data, 0o644); err != nil {
+			fatal2("%v", err)
+		}
+		delete(ov.Replace, orig)
+	}
+	nb, _ := json.MarshalIndent(map[string]any{"Replace": ov.Replace}, "", " ")
+	os.WriteFile(ovPath, nb, 0o644)
+	gm, err := os.ReadFile(filepath.Join(verifDir, "sim", "go.mod"))
+	if err != nil {
+		fatal2("%v", err)
+	}
+	sort.Strings(replaces)
+	modfile := filepath.Join(b.scratch, "go.mod")
+	os.WriteFile(modfile, []byte(string(gm)+"\n"+strings.Join(replaces, "\n")+"\n"), 0o644)
+	gs, _ := os.ReadFile(filepath.Join(verifDir, "sim", "go.sum"))
+	os.WriteFile(filepath.Join(b.scratch, "go.sum"), gs, 0o644)
+	return modfile
 }
 
 func runOrDie(cmd *exec.Cmd, what string) {
@@ -240,6 +322,14 @@ func loadKnown() []knownFinding {
 }
 
 func main() {
+	if len(os.Args) >= 3 && os.Args[1] == "build" {
+		// development helper: instrument + build, leave the worker binary in the given directory
+		b := prepare()
+		os.MkdirAll(os.Args[2], 0o755)
+		runOrDie(exec.Command("cp", b.bin, filepath.Join(os.Args[2], "worlds.test")), "copy")
+		b.cleanup()
+		return
+	}
 	if len(os.Args) >= 2 && os.Args[1] == "selftest" {
 		selftest(os.Args[2:])
 		return
